@@ -70,5 +70,32 @@ def collect(h):
     else:
         raise h.Missing(f"{rel3}: cannot decide whether the IntentsApplier loop stops at the first error")
     h.find(rel3, r"ss\s*=\s*append\(ss,\s*s\)", "one state per sync projector")
-    return [("c01_putplog_returns_err", "bool", "true" if returns_err else "false", rel + " cmdProc.putPLog"),
+    # re-apply and AFTER DEACTIVATE projectors: ProjectorEvent asks ICUDRow.IsDeactivated(), which needs
+    # rowType.isActiveModified; is that flag restored when an event is decoded from the PLog?
+    import os
+    h.find("pkg/processors/actualizers/types.go", r"if rec\.IsDeactivated\(\) \{\s*if prj\.Triggers\(appdef\.OperationKind_Deactivate, t\)", "ProjectorEvent: AFTER DEACTIVATE trigger")
+    h.find("pkg/istructsmem/tables-types.go", r"func \(rec \*recordType\) IsDeactivated\(\) bool \{\s*return !rec\.isNew && rec\.isActiveModified && !rec\.isActive", "recordType.IsDeactivated")
+    setters = []
+    d = os.path.join(h.REPO, "pkg/istructsmem")
+    for fn in sorted(os.listdir(d)):
+        if not fn.endswith(".go") or fn.endswith("_test.go"):
+            continue
+        txt = h.src("pkg/istructsmem/" + fn)
+        for m in re.finditer(r"\.isActiveModified\s*=\s*(?!false\b)(?!=)", txt):
+            heads = re.findall(r"^func (?:\([^)]*\)\s*)?(\w+)\(", txt[:m.start()], re.M)
+            setters.append((fn, heads[-1] if heads else "?"))
+    if not setters:
+        raise h.Missing("pkg/istructsmem: nothing sets isActiveModified any more")
+    decoders = [x for x in setters if re.search(r"(?i)load|decode|frombytes|read", x[1])]
+    others = [x for x in setters if x not in decoders and x[1] != "PutBool"]
+    if others:
+        raise h.Missing(f"pkg/istructsmem: isActiveModified is set in unexpected places {others}")
+    restores = bool(decoders)
+    if restores:
+        # the decoder can only restore what the encoder wrote: the mask bit set from the flag
+        enc = h.func_body("pkg/istructsmem/types-dynobuf.go", r"^func storeRowSysFields\(", "storeRowSysFields")
+        if not re.search(r"if row\.isActiveModified \{\s*sysFieldMask \|= sfm_IsActiveModified", enc):
+            raise h.Missing("pkg/istructsmem/types-dynobuf.go: the decoder restores isActiveModified but storeRowSysFields does not write sfm_IsActiveModified")
+    return [("c01_decode_restores_active_modified", "bool", "true" if restores else "false", "pkg/istructsmem (setters of rowType.isActiveModified: %s)" % ", ".join(f"{a}:{b}" for a, b in setters)),
+            ("c01_putplog_returns_err", "bool", "true" if returns_err else "false", rel + " cmdProc.putPLog"),
             ("c01_sync_flush_stops_at_error", "bool", "true" if stops else "false", rel3 + " syncActualizerFactory IntentsApplier")]
